@@ -121,6 +121,7 @@ def _run_case(case: dict, out: dict):
     griffe, oracle = _W["griffe"], _W["oracle"]
     present = [e["m"] for e in case["prog"]]
     files = lib.render_program(case["prog"])
+    lib.set_program(case["prog"])
     with scratch("c05-") as d:
         lib.write_package(d, files)
         out["py"] = oracle.ask(d, present)
@@ -135,6 +136,7 @@ def _run_case(case: dict, out: dict):
         finally:
             tap.close()
         out["trace"] = tap.events
+        out["tap_missing"] = tap.missing
         coll = loader.modules_collection
         out["real"] = lib.project(griffe, coll, present)
         out["probes"] = lib.probe_all(griffe, coll, present) if not out["crash"] else []
@@ -283,14 +285,16 @@ def evaluate(run: Run, case: dict, res: dict, stats: dict):
                 k = next((i for i, (a, b) in enumerate(zip(sp, res["probes"])) if a != b), min(len(sp), len(res["probes"])))
                 run.note(f"drift (probe outcomes): [{lib.prog_text(case['prog'])}] spec {sp[k:k + 1]} real {res['probes'][k:k + 1]}")
         if case["hist"]:
-            st, rt = spec_trace(case), [[e[0], e[1]] for e in res["trace"]]
-            if st != rt:
+            missing = res.get("tap_missing", [])
+            if lib.same_trace(case["hist"], res["trace"], missing):
+                stats["trace_accepted"] += 1
+            else:
                 stats["trace_rejected"] += 1
                 if stats["trace_rejected"] <= 3:
+                    st = [e for e in spec_trace(case) if e[0] not in missing]
+                    rt = [[e[0], e[1]] for e in res["trace"]]
                     k = next((i for i, (a, b) in enumerate(zip(st, rt)) if a != b), min(len(st), len(rt)))
-                    run.note(f"trace rejected: [{lib.prog_text(case['prog'])}] step {k}: spec {st[k:k + 1]} real {rt[k:k + 1]} (lengths {len(st)}/{len(rt)})")
-            else:
-                stats["trace_accepted"] += 1
+                    run.note(f"trace rejected (drift, not a verdict): [{lib.prog_text(case['prog'])}] step {k}: spec {st[k:k + 1]} real {rt[k:k + 1]} (lengths {len(st)}/{len(rt)})")
     elif case["unmod"]:
         stats["unmodelled"] += 1
     # model says divergence, real code agrees with CPython: the model over-approximates
